@@ -26,7 +26,7 @@ pub fn def() -> CheckDef {
                strict on/off) x random ServerAssociationOptions (as in C28), both REAL nodes (requestor: establish / \
                establish_async through connect(); acceptor: establish / establish_async) in the four sync/async pairings; after \
                establishment each side sends a seed-drawn list of P-DATA PDUs with lengths at and around the peer's maximum \
-               (send) and streams (send_pdata), the other side receives them, then the requestor releases. Schedule from the \
+               (send) and streams (send_pdata), the other side receives them PDU by PDU (receive) or message by message (receive_pdata), by the seed, then the requestor releases. Schedule from the \
                seed: node interleaving, short sends, partial deliveries, short receives. Invariants: identical accepted contexts \
                on both sides and equal to the negotiation model applied to the request found on the wire; each side's view of \
                the peer's maximum; distinct odd context ids on the wire; NoAcceptedPresentationContexts iff the model accepts \
@@ -35,7 +35,7 @@ pub fn def() -> CheckDef {
         real: &["ClientAssociationOptions::establish / establish_async (tcp_connection, establish_impl)", "ServerAssociationOptions::establish / establish_async", "Client/ServerAssociation and async twins: send, receive, send_pdata, release", "std and tokio TcpStream, mio, tokio current-thread runtime"],
         stub: &["TCP/IP (simulated byte queues, connect() interposed)", "application scripts", "negotiation model, independent PS3.8 parser (wire monitor)"],
         assumptions: &["no connection faults here (those are C30/C34)", "a local maximum of 0 makes the acceptor refuse every PDU including the request; such runs end at establishment and are counted by a probe"],
-        required_probes: &["established", "none-accepted", "over-long-send-refused", "send-at-limit", "pdata-stream", "max-zero-advertised", "max-above-large-pdu-size"],
+        required_probes: &["established", "none-accepted", "over-long-send-refused", "send-at-limit", "pdata-stream", "max-zero-advertised", "max-above-large-pdu-size", "receive-pdata-on-association"],
         net: true,
     }
 }
@@ -137,6 +137,9 @@ struct SideResult {
     /// per scripted send: (PDU length attempted, Ok?, too-long error?)
     sends: Vec<(u32, bool, bool)>,
     received_pdata: usize,
+    /// payload bytes received through receive() and receive_pdata()
+    received_bytes: u64,
+    used_receive_pdata: bool,
     release_ok: Option<bool>,
 }
 
@@ -164,7 +167,7 @@ fn make_pdu(peer_max: u32, act: &Act) -> (Pdu, u32) {
 }
 
 macro_rules! after_establish_sync {
-    ($assoc:expr, $res:expr, $script:expr, $is_requestor:expr, $expect_from_peer:expr) => {{
+    ($assoc:expr, $res:expr, $script:expr, $modes:expr) => {{
         let a = &mut $assoc;
         {
             let mut g = $res.lock().unwrap();
@@ -199,24 +202,40 @@ macro_rules! after_establish_sync {
                 data: vec![0xEE, 0xEE],
             }],
         });
-        // receive the peer's transfers up to its marker
+        // receive the peer's transfers up to its marker: PDU by PDU (receive) or message by message
+        // (receive_pdata), as drawn for this side
+        let mut modes = $modes.iter();
         loop {
-            match a.receive() {
-                Ok(Pdu::PData { data }) => {
-                    $res.lock().unwrap().received_pdata += 1;
-                    if data.iter().any(|v| v.value_type == PDataValueType::Command && v.data == vec![0xEE, 0xEE]) {
-                        break;
-                    }
+            if *modes.next().unwrap_or(&false) {
+                use std::io::Read;
+                let mut v = Vec::new();
+                let r = a.receive_pdata().read_to_end(&mut v);
+                let mut g = $res.lock().unwrap();
+                g.received_bytes += v.len() as u64;
+                g.used_receive_pdata = true;
+                if r.is_err() || v == vec![0xEE, 0xEE] {
+                    break;
                 }
-                Ok(_) => break,
-                Err(_) => break,
+            } else {
+                match a.receive() {
+                    Ok(Pdu::PData { data }) => {
+                        let mut g = $res.lock().unwrap();
+                        g.received_pdata += 1;
+                        g.received_bytes += data.iter().map(|v| v.data.len() as u64).sum::<u64>();
+                        if data.iter().any(|v| v.value_type == PDataValueType::Command && v.data == vec![0xEE, 0xEE]) {
+                            break;
+                        }
+                    }
+                    Ok(_) => break,
+                    Err(_) => break,
+                }
             }
         }
     }};
 }
 
 macro_rules! after_establish_async {
-    ($assoc:expr, $res:expr, $script:expr) => {{
+    ($assoc:expr, $res:expr, $script:expr, $modes:expr) => {{
         use tokio::io::AsyncWriteExt;
         let a = &mut $assoc;
         {
@@ -253,16 +272,31 @@ macro_rules! after_establish_async {
                 }],
             })
             .await;
+        let mut modes = $modes.iter();
         loop {
-            match a.receive().await {
-                Ok(Pdu::PData { data }) => {
-                    $res.lock().unwrap().received_pdata += 1;
-                    if data.iter().any(|v| v.value_type == PDataValueType::Command && v.data == vec![0xEE, 0xEE]) {
-                        break;
-                    }
+            if *modes.next().unwrap_or(&false) {
+                use tokio::io::AsyncReadExt;
+                let mut v = Vec::new();
+                let r = a.receive_pdata().read_to_end(&mut v).await;
+                let mut g = $res.lock().unwrap();
+                g.received_bytes += v.len() as u64;
+                g.used_receive_pdata = true;
+                if r.is_err() || v == vec![0xEE, 0xEE] {
+                    break;
                 }
-                Ok(_) => break,
-                Err(_) => break,
+            } else {
+                match a.receive().await {
+                    Ok(Pdu::PData { data }) => {
+                        let mut g = $res.lock().unwrap();
+                        g.received_pdata += 1;
+                        g.received_bytes += data.iter().map(|v| v.data.len() as u64).sum::<u64>();
+                        if data.iter().any(|v| v.value_type == PDataValueType::Command && v.data == vec![0xEE, 0xEE]) {
+                            break;
+                        }
+                    }
+                    Ok(_) => break,
+                    Err(_) => break,
+                }
             }
         }
     }};
@@ -278,7 +312,7 @@ fn note_err(res: &Shared<SideResult>, e: &Error) {
     g.err_none_accepted = matches!(e, Error::NoAcceptedPresentationContexts { .. });
 }
 
-fn spawn_requestor(cli: &CliCfg, script: Vec<Act>, is_async: bool, res: &Shared<SideResult>) {
+fn spawn_requestor(cli: &CliCfg, script: Vec<Act>, modes: Vec<bool>, is_async: bool, res: &Shared<SideResult>) {
     let cli = cli.clone();
     let res = res.clone();
     simnet::spawn_node("requestor", is_async, move || {
@@ -287,7 +321,7 @@ fn spawn_requestor(cli: &CliCfg, script: Vec<Act>, is_async: bool, res: &Shared<
             rt.block_on(async {
                 match client_options(&cli).establish_async("10.0.0.1:104").await {
                     Ok(mut a) => {
-                        after_establish_async!(a, res, script);
+                        after_establish_async!(a, res, script, modes);
                         let r = a.release().await;
                         res.lock().unwrap().release_ok = Some(r.is_ok());
                     }
@@ -297,7 +331,7 @@ fn spawn_requestor(cli: &CliCfg, script: Vec<Act>, is_async: bool, res: &Shared<
         } else {
             match client_options(&cli).establish("10.0.0.1:104") {
                 Ok(mut a) => {
-                    after_establish_sync!(a, res, script, true, 0);
+                    after_establish_sync!(a, res, script, modes);
                     let r = a.release();
                     res.lock().unwrap().release_ok = Some(r.is_ok());
                 }
@@ -319,7 +353,7 @@ fn acceptor_options(cfg: &AccCfg) -> dicom_ul::association::ServerAssociationOpt
     o
 }
 
-fn spawn_acceptor(cfg: &AccCfg, script: Vec<Act>, fd: i32, is_async: bool, res: &Shared<SideResult>) {
+fn spawn_acceptor(cfg: &AccCfg, script: Vec<Act>, modes: Vec<bool>, fd: i32, is_async: bool, res: &Shared<SideResult>) {
     let cfg = cfg.clone();
     let res = res.clone();
     simnet::spawn_node("acceptor", is_async, move || {
@@ -330,7 +364,7 @@ fn spawn_acceptor(cfg: &AccCfg, script: Vec<Act>, fd: i32, is_async: bool, res: 
                 let r = if cfg.check_called { acceptor_options(&cfg).accept_called_ae_title().establish_async(stream).await } else { acceptor_options(&cfg).establish_async(stream).await };
                 match r {
                     Ok(mut a) => {
-                        after_establish_async!(a, res, script);
+                        after_establish_async!(a, res, script, modes);
                         // wait for the release request and answer it
                         if let Ok(Pdu::ReleaseRQ) = a.receive().await {
                             let _ = a.send(&Pdu::ReleaseRP).await;
@@ -344,7 +378,7 @@ fn spawn_acceptor(cfg: &AccCfg, script: Vec<Act>, fd: i32, is_async: bool, res: 
             let r = if cfg.check_called { acceptor_options(&cfg).accept_called_ae_title().establish(stream) } else { acceptor_options(&cfg).establish(stream) };
             match r {
                 Ok(mut a) => {
-                    after_establish_sync!(a, res, script, false, 0);
+                    after_establish_sync!(a, res, script, modes);
                     if let Ok(Pdu::ReleaseRQ) = a.receive() {
                         let _ = a.send(&Pdu::ReleaseRP);
                     }
@@ -376,6 +410,9 @@ fn run(cfgi: usize, w: &mut Tape, env: &EnvRef) -> RunResult {
     let cli = gen_cli(w, &acc);
     let req_script = gen_script(w, !req_async);
     let acc_script = gen_script(w, !acc_async);
+    // how each side takes the peer's messages: false = receive() PDU by PDU, true = receive_pdata() message by message
+    let req_modes: Vec<bool> = (0..8).map(|_| w.chance(1, 3)).collect();
+    let acc_modes: Vec<bool> = (0..8).map(|_| w.chance(1, 3)).collect();
     env.with(|e| e.obs.note_with(|| format!("requestor {:?} script {:?}; acceptor {:?} script {:?}", cli, req_script, acc, acc_script)));
     if cli.max_pdu == 0 || acc.max_pdu == 0 {
         env.probe("max-zero-advertised");
@@ -385,8 +422,8 @@ fn run(cfgi: usize, w: &mut Tape, env: &EnvRef) -> RunResult {
     let conn = simnet::connection(Some(104));
     let rres = shared(SideResult::default());
     let ares = shared(SideResult::default());
-    spawn_acceptor(&acc, acc_script.clone(), simnet::fd_of(conn.a), acc_async, &ares);
-    spawn_requestor(&cli, req_script.clone(), req_async, &rres);
+    spawn_acceptor(&acc, acc_script.clone(), acc_modes.clone(), simnet::fd_of(conn.a), acc_async, &ares);
+    spawn_requestor(&cli, req_script.clone(), req_modes.clone(), req_async, &rres);
     let rep = simnet::run(60_000);
     let end = simnet::end();
     if end.needs_restart {
@@ -524,8 +561,11 @@ fn run(cfgi: usize, w: &mut Tape, env: &EnvRef) -> RunResult {
         // everything a side put on the wire fits the peer's maximum (checked above), so the peer receives it all
         for (ep, res, who) in [(conn.a, &r, "requestor"), (conn.b, &a, "acceptor")] {
             let (pdus, _) = wire_pdus(&end.eps[ep]);
-            let n = pdus.iter().filter(|p| matches!(p, Ok(RPdu::PData(_)))).count();
-            check!(res.received_pdata == n, "fitting-pdu-received", format!("c29:{}-missed-pdata", who), "{} received {} P-DATA PDUs, the peer put {} fitting ones on the wire", who, res.received_pdata, n);
+            let n: u64 = pdus.iter().map(|p| if let Ok(RPdu::PData(v)) = p { v.iter().map(|x| x.data.len() as u64).sum() } else { 0 }).sum();
+            if res.used_receive_pdata {
+                env.probe("receive-pdata-on-association");
+            }
+            check!(res.received_bytes == n, "fitting-pdu-received", format!("c29:{}-missed-pdata", who), "{} received {} P-DATA payload bytes (receive / receive_pdata), the peer put {} on the wire in fitting PDUs", who, res.received_bytes, n);
         }
         check!(r.release_ok == Some(true), "release", "c29:release-failed", "release after a clean exchange failed");
     }
